@@ -9,8 +9,8 @@ VARIANTS = [
         axis = rot_y @ axis
 """, "")]},
     {'name': 'y-alignment-ignores-z', 'rule': 'C20.R1',
-     'edits': [(V, """        beta = -axis.x/abs(axis.x)*math.acos(
-            axis.z/math.sqrt(axis.x*axis.x + axis.z*axis.z))""", """        beta = -axis.x/abs(axis.x)*math.pi/2.0""")]},
+     'edits': [(V, """        beta = -math.copysign(1.0, axis.x)*math.atan2(
+            abs(axis.x), axis.z)""", """        beta = -math.copysign(1.0, axis.x)*math.pi/2.0""")]},
     {'name': 'matrix-sign-error', 'rule': 'C20.R2',
      'edits': [(V, "        a12i=-math.sin(theta),", "        a12i=math.sin(theta),")]},
     {'name': 'matrix-y-transposed', 'rule': 'C20.R2',
@@ -40,13 +40,18 @@ VARIANTS = [
      'edits': [(V, "gamma", "g_angle", 0)]},
     {'name': 'sense-taken-from-incoming-axis-for-both-alignments', 'rule': 'C20.R1',
      'edits': [(V, "    gamma = 0.0\n    if axis.y != 0:", "    sense = 1.0 if axis.x < 0 else -1.0\n    gamma = 0.0\n    if axis.y != 0:"),
-               (V, "        beta = -axis.x/abs(axis.x)*math.acos(", "        beta = sense*math.acos(")]},
+               (V, "        beta = -math.copysign(1.0, axis.x)*math.atan2(", "        beta = sense*math.atan2(")]},
     {'name': 'sense-taken-from-realigned-axis-silent', 'expect': 'pass',
-     'edits': [(V, "        beta = -axis.x/abs(axis.x)*math.acos(", "        sense = 1.0 if axis.x < 0 else -1.0\n        beta = sense*math.acos(")]},
+     'edits': [(V, "        beta = -math.copysign(1.0, axis.x)*math.atan2(", "        sense = 1.0 if axis.x < 0 else -1.0\n        beta = sense*math.atan2(")]},
     {'name': 'antiparallel-branch-turns-axis-only', 'rule': 'C20.R3',
      'edits': [(V, "        beta = math.pi\n        rot_y = rotate_atoms_around_y_axis(beta)\n        vec = rot_y @ vec\n", "        beta = math.pi\n        rot_y = rotate_atoms_around_y_axis(beta)\n")]},
     {'name': 'quarter-turn-by-hand-without-undo', 'rule': 'C20.R3',
      'edits': [(V, "        else:\n            gamma = math.pi/2.0\n        rot_z = rotate_atoms_around_z_axis(gamma)\n        vec = rot_z @ vec\n        axis = rot_z @ axis\n", "            rot_z = rotate_atoms_around_z_axis(gamma)\n            vec = rot_z @ vec\n            axis = rot_z @ axis\n        else:\n            vec = Vector(-vec.y, vec.x, vec.z)\n            axis = Vector(-axis.y, 0.0, axis.z)\n")]},
     {'name': 'z-alignment-duplicated-into-both-branches-silent', 'expect': 'pass',
      'edits': [(V, "        else:\n            gamma = math.pi/2.0\n        rot_z = rotate_atoms_around_z_axis(gamma)\n        vec = rot_z @ vec\n        axis = rot_z @ axis\n", "            rot_z = rotate_atoms_around_z_axis(gamma)\n            vec = rot_z @ vec\n            axis = rot_z @ axis\n        else:\n            gamma = math.pi/2.0\n            rot_z = rotate_atoms_around_z_axis(gamma)\n            vec = rot_z @ vec\n            axis = rot_z @ axis\n")]},
+    {'name': 'revert-fix-F43-asin-acos-of-ratio', 'rule': 'C20.R5',
+     'edits': [(V, "            gamma = -math.copysign(1.0, axis.x)*math.atan2(\n                axis.y, abs(axis.x))", "            gamma = -axis.x/abs(axis.x)*math.asin(\n                axis.y/(math.sqrt(axis.x*axis.x + axis.y*axis.y)))"),
+               (V, "        beta = -math.copysign(1.0, axis.x)*math.atan2(\n            abs(axis.x), axis.z)", "        beta = -axis.x/abs(axis.x)*math.acos(\n            axis.z/math.sqrt(axis.x*axis.x + axis.z*axis.z))")]},
+    {'name': 'acos-with-hypot', 'rule': 'C20.R5',
+     'edits': [(V, "        beta = -math.copysign(1.0, axis.x)*math.atan2(\n            abs(axis.x), axis.z)", "        beta = -math.copysign(1.0, axis.x)*math.acos(\n            axis.z/math.hypot(axis.x, axis.z))")]},
 ]
